@@ -578,6 +578,8 @@ pub struct PairSim {
     pub seal_logs: [Vec<vpncloud::crypto::verif::VerifSeal>; 2],
     pub log_seals: bool,
     pub probe_counter: u32,
+    /// when set, the receive buffer behind every fed datagram is filled with this byte (stale tail)
+    pub tail: Option<u8>,
 }
 
 impl PairSim {
@@ -607,6 +609,7 @@ impl PairSim {
                     seal_logs: [vec![], vec![]],
                     log_seals: false,
                     probe_counter: 0,
+                    tail: None,
                 };
             }
             eb = mk(b);
@@ -645,6 +648,12 @@ impl PairSim {
         let mut buf = new_buf();
         buf.set_length(data.len());
         buf.message_mut().copy_from_slice(data);
+        if let Some(t) = self.tail {
+            let n = data.len();
+            let b = buf.buffer();
+            let end = (n + 600).min(b.len());
+            b[n..end].fill(t);
+        }
         let r = self.ends[side].handle_message(&mut buf);
         self.collect_log(side);
         match r {
